@@ -18,7 +18,7 @@ DEFAULT_HEADERS = ('glm/glm.hpp', 'glm/ext.hpp')
 class Cfg:
     """a build configuration: -D macros / -m flags / headers / callees to keep opaque"""
 
-    def __init__(self, name='default', defines=(), flags=(), headers=DEFAULT_HEADERS, noinline=(), std=None, prelude='', peel=0):
+    def __init__(self, name='default', defines=(), flags=(), headers=DEFAULT_HEADERS, noinline=(), std=None, prelude='', peel=0, pre_text=''):
         self.name = name
         self.defines = tuple(defines)
         self.flags = tuple(flags)
@@ -26,10 +26,11 @@ class Cfg:
         self.noinline = tuple(noinline)
         self.std = std
         self.prelude = prelude
+        self.pre_text = pre_text   # text emitted before the GLM headers (e.g. the g++ preprocessor view: system headers first, then #undef __clang__)
         self.peel = peel           # peel this many iterations off every loop (irtool --peel); the interpreter then cuts the residual back edge
 
     def key(self):
-        return (self.name, self.defines, self.flags, self.headers, self.noinline, self.std, self.prelude, self.peel)
+        return (self.name, self.defines, self.flags, self.headers, self.noinline, self.std, self.prelude, self.peel, self.pre_text)
 
     def __hash__(self):
         return hash(self.key())
@@ -40,7 +41,7 @@ class Cfg:
     def with_(self, name=None, defines=(), flags=(), noinline=(), headers=None, prelude=None):
         return Cfg(name or self.name, self.defines + tuple(defines), self.flags + tuple(flags),
                    headers if headers is not None else self.headers, self.noinline + tuple(noinline), self.std,
-                   self.prelude if prelude is None else prelude, self.peel)
+                   self.prelude if prelude is None else prelude, self.peel, self.pre_text)
 
     def describe(self):
         return ' '.join(['-D' + d for d in self.defines] + list(self.flags)) or '(default)'
@@ -91,6 +92,8 @@ def _tu_source(cfg, kernels):
             out.append('#define %s' % d)
     if 'GLM_ENABLE_EXPERIMENTAL' not in cfg.defines:
         out.append('#define GLM_ENABLE_EXPERIMENTAL')
+    if getattr(cfg, 'pre_text', ''):
+        out.append(cfg.pre_text)
     for h in cfg.headers:
         out.append('#include <%s>' % h)
     out.append('using namespace glm;')
